@@ -695,6 +695,88 @@ func init() {
 				return "", fmt.Errorf("influx.Parse: no rowBuilder.Reset() in the loop over the lines")
 			}
 		}
+		// getPrecisionMultiplier: the switch as a table (precision, multiplier); "default" last
+		gp := FindFunc(ipf, "", "getPrecisionMultiplier")
+		if gp == nil {
+			return "", fmt.Errorf("getPrecisionMultiplier not found")
+		}
+		var evalC func(e ast.Expr) (int64, bool)
+		evalC = func(e ast.Expr) (int64, bool) {
+			switch x := e.(type) {
+			case *ast.BasicLit:
+				f, err := strconv.ParseFloat(x.Value, 64)
+				if err != nil || f != float64(int64(f)) {
+					return 0, false
+				}
+				return int64(f), true
+			case *ast.ParenExpr:
+				return evalC(x.X)
+			case *ast.UnaryExpr:
+				v, ok := evalC(x.X)
+				if x.Op == token.SUB {
+					return -v, ok
+				}
+				return v, ok && x.Op == token.ADD
+			case *ast.BinaryExpr:
+				a, ok1 := evalC(x.X)
+				b, ok2 := evalC(x.Y)
+				if x.Op == token.MUL {
+					return a * b, ok1 && ok2
+				}
+			}
+			return 0, false
+		}
+		var precRows []string
+		var precErr error
+		ast.Inspect(gp.Body, func(n ast.Node) bool {
+			cc, ok := n.(*ast.CaseClause)
+			if !ok {
+				return true
+			}
+			if len(cc.Body) != 1 {
+				precErr = fmt.Errorf("getPrecisionMultiplier: a case with %d statements", len(cc.Body))
+				return false
+			}
+			rs, ok := cc.Body[0].(*ast.ReturnStmt)
+			if !ok || len(rs.Results) != 1 {
+				precErr = fmt.Errorf("getPrecisionMultiplier: a case that does not return one value")
+				return false
+			}
+			v, ok := evalC(rs.Results[0])
+			if !ok {
+				precErr = fmt.Errorf("getPrecisionMultiplier: cannot evaluate %s", c16Src(fsetP, rs.Results[0]))
+				return false
+			}
+			if cc.List == nil {
+				precRows = append(precRows, fmt.Sprintf("(\"default\", %s)", LeanInt(v)))
+			}
+			for _, l := range cc.List {
+				bl, ok := l.(*ast.BasicLit)
+				if !ok || bl.Kind != token.STRING {
+					precErr = fmt.Errorf("getPrecisionMultiplier: case label %s", c16Src(fsetP, l))
+					return false
+				}
+				precRows = append(precRows, fmt.Sprintf("(%s, %s)", bl.Value, LeanInt(v)))
+			}
+			return false
+		})
+		if precErr != nil {
+			return "", precErr
+		}
+		sb.WriteString("/-- getPrecisionMultiplier: (lower-cased precision, multiplier); > 0: ms = literal * m, < 0: ms = -1 * literal / m, 0: guessed -/\ndef influxPrecisionTable : List (String × Int) := [" + strings.Join(precRows, ", ") + "]\n\n")
+		var swTag string
+		ast.Inspect(gp.Body, func(n ast.Node) bool {
+			if sw, ok := n.(*ast.SwitchStmt); ok && swTag == "" && sw.Tag != nil {
+				swTag = c16Src(fsetP, sw.Tag)
+			}
+			return true
+		})
+		def("influxPrecisionSwitchTag", swTag)
+		s, err = c16BodySrc(fsetI, FindFunc(ip, "", "parseTimestamp"))
+		if err != nil {
+			return "", fmt.Errorf("parseTimestamp: %w", err)
+		}
+		def("influxParseTimestampSrc", s)
 		fmt.Fprintf(&sb, "/-- influx.Parse: `rowBuilder.Reset()` is a statement of the loop body that runs before anything that can `continue`, fail or touch the builder -/\ndef influxResetAtLoopTop : Bool := %v\n\n", resetAtTop)
 		sb.WriteString("/-- influx.Parse: the statements of the loop body that touch the builder or leave the iteration, in source order -/\ndef influxParseLoopSteps : List String := " + LeanStrList(loopStmts) + "\n\n")
 
